@@ -9,7 +9,7 @@
     What is outside the Coq statements (parser round trip, here-documents, quoting, behaviour) is
     decided on the code by execution: see props/c14.py. *)
 From Coq Require Import String.
-From BV Require Import Base.Prelude Base.Codec gen.C14TokTables Print.Tokenize Print.Show Print.Separation.
+From BV Require Import Base.Prelude Base.Codec gen.C14TokTables Print.Tokenize Print.Show Print.Separation Print.ParseFlat.
 
 (** generic: a well-separated sequence of valid print atoms tokenizes back to its lexemes *)
 Theorem c14_tokenize_render : forall l,
@@ -53,3 +53,18 @@ Theorem c14_nonvacuous :
   show repaired_flags ex_redirs = (lit "{ "%string ++ [10] ++ lit "    echo a"%string ++ [10] ++ lit "} > f 2>& 1"%string)%N.
 Proof. exact show_separates_examples. Qed.
 Print Assumptions c14_nonvacuous.
+
+(** parse round trip (partial): for flat function definitions - a body that is a list of and-or lists of
+    pipelines of simple commands - the parser model gives back the AST from the printed text.
+    The full statement [print_parse_print_stmt] (Print/ParseFlat.v) is not proved: compound commands
+    inside the body are outside the parser model. *)
+Theorem c14_print_parse_print_partial : forall pf c, ParseFlat.flat_fun c = true -> ok_cmd pf false c = true ->
+  ParseFlat.parse (tokenize (show pf c)) = Some c.
+Proof. exact ParseFlat.parse_show. Qed.
+Print Assumptions c14_print_parse_print_partial.
+
+Theorem c14_print_parse_print_nonvacuous :
+  ParseFlat.flat_fun ParseFlat.ex_flat = true /\ ok_cmd old_flags false ParseFlat.ex_flat = true /\
+  ParseFlat.parse (tokenize (show old_flags ParseFlat.ex_flat)) = Some ParseFlat.ex_flat.
+Proof. exact ParseFlat.parse_show_example. Qed.
+Print Assumptions c14_print_parse_print_nonvacuous.
